@@ -11,9 +11,11 @@ import (
 	"time"
 
 	"verif/cmdmodel"
+	"verif/corpus"
 	"verif/drive"
 	"verif/findings"
 	. "verif/tsmodel"
+	"verif/tsparse"
 )
 
 func init() { Registry["C05"] = C05 }
@@ -30,8 +32,33 @@ type BatchVerdict struct {
 }
 
 func JudgeBatch(prog *Prog) BatchVerdict {
+	v, _ := JudgeBatchFiles(prog, nil)
+	return v
+}
+
+// JudgeBatchFiles is JudgeBatch with a file system: pre holds the files present before the script starts
+// (model spelling: lines end in \n); the second result is the file system after the cmd.exe-model run, in the
+// same spelling. The reference's final file system is in Want.FS.
+func JudgeBatchFiles(prog *Prog, pre map[string]string) (BatchVerdict, map[string]string) {
 	src := PrintProg(*prog)
 	in := &Interp{Width: 32}
+	fs := map[string]string{}
+	if pre != nil {
+		in.FS = map[string]string{}
+		for k, c := range pre {
+			in.FS[k] = c
+			fs[k] = strings.ReplaceAll(c, "\n", "\r\n")
+		}
+	}
+	v := judgeBatchRun(prog, src, in, fs)
+	after := map[string]string{}
+	for k, c := range fs {
+		after[k] = strings.ReplaceAll(c, "\r\n", "\n")
+	}
+	return v, after
+}
+
+func judgeBatchRun(prog *Prog, src string, in *Interp, fs map[string]string) BatchVerdict {
 	want := in.Run(prog)
 	v := BatchVerdict{Src: src, Want: want}
 	if want.Undefined != "" {
@@ -49,10 +76,20 @@ func JudgeBatch(prog *Prog) BatchVerdict {
 	}
 	v.Script = tr.Script
 	budget := 300000 + 600*len(want.Stdout) + 50*len(src)
-	got := cmdmodel.Run(tr.Script, cmdmodel.Options{MaxSteps: budget, Files: map[string]string{}})
+	start := map[string]string{}
+	for k, c := range fs {
+		start[k] = c
+	}
+	got := cmdmodel.Run(tr.Script, cmdmodel.Options{MaxSteps: budget, Files: fs})
 	if got.Unmodelled == "step budget" {
 		// believe a runaway only after a run with a much larger budget
-		got = cmdmodel.Run(tr.Script, cmdmodel.Options{MaxSteps: 8 * budget, Files: map[string]string{}})
+		for k := range fs {
+			delete(fs, k)
+		}
+		for k, c := range start {
+			fs[k] = c
+		}
+		got = cmdmodel.Run(tr.Script, cmdmodel.Options{MaxSteps: 8 * budget, Files: fs})
 		if got.Unmodelled == "step budget" {
 			v.Got = got
 			v.Symptom, v.Detail = "runaway", fmt.Sprintf("no termination within %d cmd steps (the reference run ends after %d output bytes)", 8*budget, len(want.Stdout))
@@ -357,6 +394,12 @@ func c05Programs(r *findings.Run) (progs []*Prog, names []string) {
 		one("string-range", str, Define{Names: []string{"acc"}, Form: DefShort, Vals: []Expr{StrLit{V: ""}}}, ForRange{I: "i", V: "c", X: Var{"str"}, Body: []Stmt{Assign{Names: []string{"acc"}, Vals: []Expr{Binary{Op: "+", L: Var{"c"}, R: Var{"acc"}}}}}}, pn(Var{"acc"}))
 		one("function-result", FuncDef{Name: "f", Params: []Param{{"a", TInt}}, Rets: []Type{TInt}, Body: []Stmt{Return{Vals: []Expr{Binary{Op: "+", L: Var{"a"}, R: lit(1)}}}}}, pn(Itoa{X: Call{Fn: "f", Args: []Expr{lit(4)}}}))
 		one("multi-assign", x, Define{Names: []string{"y"}, Form: DefShort, Vals: []Expr{lit(8)}}, Assign{Names: []string{"x", "y"}, Vals: []Expr{Var{"y"}, Var{"x"}}}, pn(Itoa{X: Binary{Op: "-", L: Var{"x"}, R: Var{"y"}}}))
+	}
+	// sole-facility programs written as text (package corpus), as far as the reference model reads them
+	for _, tp := range corpus.Tiny() {
+		if p, err := tsparse.Parse(tp.Src); err == nil && len(p.Imports) == 0 {
+			add("tiny "+tp.Name, p)
+		}
 	}
 	// the cross-feature space (cross.go): statements of all fragments crossed with every context / with each other
 	for _, cp := range crossReduced(r.Thorough()) {
